@@ -90,6 +90,8 @@ pub fn run(ctx: &Ctx) {
     for len in 0..=130usize { for a in alphabets { let cs: Vec<char> = a.chars().collect(); mal.push(Case::Malformed { s: (0..len).map(|i| cs[(i * 7 + len) % cs.len()]).collect() }); } mal.push(Case::Malformed { s: valid.chars().take(len).collect() }); }
     for i in 0..112 { for r in ['=', '-', '_', ' ', '\n', 'é', 'A', '/'] { let mut cs: Vec<char> = valid.chars().collect(); cs[i] = r; mal.push(Case::Malformed { s: cs.into_iter().collect() }); } }
     { let cs: Vec<char> = valid.chars().collect(); for pos in 0..=cs.len() { for ch in [' ', '\n', '\t', '=', '-'] { let mut v = cs.clone(); v.insert(pos, ch); mal.push(Case::Malformed { s: v.into_iter().collect() }); } } }
+    // the same 84 bytes in other base64 dialects (URL-safe alphabet, with/without padding, MIME line break): the format is the standard alphabet only
+    for k in 0..40u8 { let v = kspec::lock_private_key_with(&[k; 32], &[k.wrapping_mul(7); 32], &[k.wrapping_add(3); 32]); if v.contains('+') || v.contains('/') { mal.push(Case::Malformed { s: v.replace('+', "-").replace('/', "_") }); mal.push(Case::Malformed { s: v.replace('+', "-") }); mal.push(Case::Malformed { s: v.replace('/', "_") }); mal.push(Case::Malformed { s: v.replace('+', ".").replace('/', ",") }); } let mut w = v.clone(); w.insert_str(76, "\r\n"); mal.push(Case::Malformed { s: w }); }
     mal.push(Case::Malformed { s: format!("{}=", valid) }); mal.push(Case::Malformed { s: format!("{}====", valid) }); mal.push(Case::Malformed { s: format!(" {}", valid) }); mal.push(Case::Malformed { s: format!("{}\n", valid) });
     ctx.sse_vec("malformed_strings", "every length 0..=130 x 6 alphabets; every position of a valid 112-character string x 8 replacement characters; padding/whitespace variants", mal, check);
     ctx.pbt("malformed_random", ctx.n(20_000, 500_000), || prop_oneof![12 => "[A-Za-z0-9+/=]{0,130}", 12 => "\\PC{0,60}", 12 => "[A-Za-z0-9+/]{112}", 1 => "ZWdrM[A-Za-z0-9+/]{107}"].prop_map(|s| Case::Malformed { s }), check);
